@@ -66,16 +66,22 @@ fn axle<const N: usize>(count: &mut u64) {
     *count += 1;
     // indices past the end: a safe caller must get a panic (or some terminal of this axle), never a reference outside it
     for idx in [N, N + 1, N + 7, usize::MAX, usize::MAX / 64] {
+        // the expected panic of an out-of-range index is silenced; any other panic of this program keeps its message
+        // (the driver tells "wrong result / panic in rrtk" from an infrastructure problem by it)
+        let prev = std::panic::take_hook();
+        std::panic::set_hook(Box::new(|_| {}));
         let r = std::panic::catch_unwind(std::panic::AssertUnwindSafe(|| a.get_terminal(idx) as *const _ as usize));
         if let Ok(addr) = r {
             let base = &a as *const _ as usize;
+            std::panic::set_hook(prev);
             assert!(N > 0 && addr >= base && addr < base + core::mem::size_of_val(&a), "Axle<{}>::get_terminal({}) returned a reference outside the axle", N, idx);
+        } else {
+            std::panic::set_hook(prev);
         }
         *count += 1;
     }
 }
 fn main() {
-    std::panic::set_hook(Box::new(|_| {}));
     let max: usize = std::env::args().nth(1).and_then(|a| a.parse().ok()).unwrap_or(8);
     let mut count = 0u64;
     nary::<1>(&mut count);
